@@ -1102,6 +1102,10 @@ class DefEval:
                 return b in a.mro
         if d == "logger.debug" or (d or "").startswith("logger.") or d in ("print", "warnings.warn"):
             return None
+        r_ext = m.resolve_dotted(func.module, e.func) if isinstance(e.func, (ast.Name, ast.Attribute)) else None
+        if r_ext is not None and r_ext[0] == "ext" and r_ext[1].split(".")[-1][:1].isupper():
+            # an object of a class from outside the package (weakref.WeakValueDictionary(), OrderedDict(), ...)
+            return Opaque("ext:" + r_ext[1], e)
         callee = self.expr(fr, e.func)
         args = [self.expr(fr, a) for a in e.args]
         kwargs = {k.arg: self.expr(fr, k.value) for k in e.keywords}
